@@ -46,6 +46,7 @@ structure PCall (Val : Type) where
 inductive Ign (Val : Type)
   | idx (i : Nat)
   | name (n : Val)
+  | neg (i : Nat)               -- the negative integer `-(i+1)`: an `int`, so not a name; `enumerate` never yields it, so not a position
   deriving Repr, DecidableEq
 
 structure Consts (Val : Type) where
@@ -150,8 +151,8 @@ def kSignature (f : Func Val) : Option (List Val × List (Val × Val)) :=
 
 /-! ## code: `_keygen(func, ignored, *args, **kwds)` -/
 
-def ignIdx (ign : List (Ign Val)) : List Nat := ign.filterMap fun | .idx i => some i | .name _ => none
-def ignNames (ign : List (Ign Val)) : List Val := ign.filterMap fun | .idx _ => none | .name n => some n
+def ignIdx (ign : List (Ign Val)) : List Nat := ign.filterMap fun | .idx i => some i | .name _ => none | .neg _ => none
+def ignNames (ign : List (Ign Val)) : List Val := ign.filterMap fun | .idx _ => none | .name n => some n | .neg _ => none
 
 /-- `enumerate` -/
 def enum {α : Type} (l : List α) : List (Nat × α) := (List.range l.length).zip l
